@@ -70,6 +70,17 @@ ExpectedMessages(prog, pydantic, stdmod) ==
 ExpectedEnums(prog) ==
   { [mod |-> e.pkg, cls |-> e.key, numbers |-> [j \in 1..Len(e.values) |-> e.values[j][2]]] : e \in SeqSet(prog.enums) }
 
+\* one handler per rpc in the server base class, registered under the route of that rpc with its cardinality and the
+\* classes generated for its request / response types
+CardName(cs, ss) == IF cs /\ ss THEN "STREAM_STREAM" ELSE IF cs THEN "STREAM_UNARY" ELSE IF ss THEN "UNARY_STREAM" ELSE "UNARY_UNARY"
+ExpectedRoutes(prog, stdmod) ==
+  LET types == TypeTable(prog) IN
+  UNION { { [mod |-> sv.pkg, route |-> "/" \o (IF sv.pkg = "" THEN "" ELSE sv.pkg \o ".") \o sv.name \o "/" \o sv.methods[j].name,
+             card |-> CardName(sv.methods[j].cs, sv.methods[j].ss),
+             req |-> Target(types, sv.methods[j].in, sv.methods[j].inshort, stdmod),
+             rep |-> Target(types, sv.methods[j].out, sv.methods[j].outshort, stdmod)] : j \in 1..Len(sv.methods) }
+          : sv \in SeqSet(prog.services) }
+ObservedRoutes(obs) == SeqSet(obs.routes)
 ObservedMessages(obs) == { [mod |-> c.mod, cls |-> c.cls, fields |-> SeqSet(c.fields)] : c \in SeqSet(obs.messages) }
 ObservedEnums(obs) == { [mod |-> c.mod, cls |-> c.cls, numbers |-> c.numbers] : c \in SeqSet(obs.enums) }
 
@@ -81,6 +92,11 @@ MapOfWrapper(prog, mod, clskey, num) ==
 WrapperShadowed(prog, mod, clskey, x) ==
   x.wraps # "" /\ \E m \in SeqSet(prog.msgs) : m.pkg = mod /\ m.key = clskey /\
      \E j \in 1..Len(m.fields) : m.fields[j].name = PyScalar(x.wraps)
+\* two different packages whose '_'-joined paths coincide (x.a.b and x.a_b): their import aliases collide in a module
+\* that refers to both
+RECURSIVE JoinU(_)
+JoinU(p) == IF p = <<>> THEN "" ELSE IF Len(p) = 1 THEN p[1] ELSE p[1] \o "_" \o JoinU(Tail(p))
+AliasCollisionInput(prog) == \E a, b \in SeqSet(prog.pkgpaths) : a # b /\ JoinU(a) = JoinU(b)
 \* two schema types that flatten to one class name in one module: the design cannot represent both (ClassNamesInjective)
 ClassNameClash(prog) ==
   LET all == [j \in 1..(Len(prog.msgs) + Len(prog.enums)) |->
